@@ -63,7 +63,7 @@ def generate(rng, run, tier):
         return {"kind": kind, "items": items, "opts": opts, "knobs": knobs,
                 "lead_empty": rng.random() < 0.1}
     if rng.random() < 0.5:
-        plan = c01.generate(rng, run, tier)
+        plan = c01.gen_plan(rng, run, tier)
         plan["source"] = "real"
         plan["integration"] = "generic"
         cfg = plan["cfg"]
